@@ -87,6 +87,18 @@ def check(prop, tier, threads, mc_cfg, gen_cfg, split, maxlen, walks, walk_len, 
             r = tlc.require_clean(tlc.run_tlc(module, c, workers=NPROC, scratch=sc), c)
             extra_states += r.distinct
             extra_trans += r.generated
+        impl_states = 0
+        rejected_designs = {}
+        if prop == "C14":
+            # the mechanism of labrea/runtime.py (as repaired) in lockstep with the abstract machine, and the three
+            # mechanisms of the pinned commit, which TLC must reject (non-vacuity of ImplServes)
+            r = tlc.require_clean(tlc.run_tlc("MC_RuntimeImpl", "MC_RuntimeImpl_ok.cfg", workers=NPROC, scratch=sc), "RuntimeImpl")
+            impl_states = r.distinct
+            for v in ("nofallback", "objprev", "noneslot"):
+                rv = tlc.run_tlc("MC_RuntimeImpl", "MC_RuntimeImpl_%s.cfg" % v, workers=NPROC, scratch=sc)
+                if not (rv.violation and "ImplServes" in rv.violation):
+                    raise MachineryError("vacuity guard: the pinned mechanism '%s' was not rejected by ImplServes" % v)
+                rejected_designs[v] = "ImplServes"
         g = graph.Graph()
         gen = tlc.require_clean(
             tlc.run_tlc(module, gen_cfg, workers=1, scratch=sc, collect="EDGE ",
@@ -146,7 +158,8 @@ def check(prop, tier, threads, mc_cfg, gen_cfg, split, maxlen, walks, walk_len, 
         sample = cover[len(cover) // 2] if cover else []
         code = rep.finish()
         evidence.write(prop, tier, "model_checking", {
-            "states": mc.distinct + extra_states,
+            "states": mc.distinct + extra_states + impl_states,
+            "runtime_impl_states": impl_states, "pinned_mechanisms_rejected_by_tlc": rejected_designs,
             "transitions": mc.generated + extra_trans,
             "traces_validated_against_impl": total,
             "evaluations": total,
